@@ -207,6 +207,24 @@ def _events(args):
                 add({"op": "split", "fn": name, "A": ilist(c), "C": ilist(b) if b.shape == c.shape and np.array_equal(np.rint(b), b) else []})
             else:
                 add({"op": "flag", "clause": "SplitLossless", "fn": name, "ok": bool(b.shape == c.shape and sha(b) == sha(c))})
+    # ---- call history: the same sparse matrix object converted again after a value-only update of one plane
+    for c in cat[81:81 + 6]:
+        m, n = c.shape[:2]
+        spm = u.SparseQuaternionMatrix(*[sparse.csr_matrix(c[..., t]) for t in range(4)], (m, n))
+        S_._quat_to_components(spm)
+        spm.j = spm.j * 3                                # same sparsity pattern and nnz, new values
+        spm.k.data[:] = -spm.k.data
+        want = c.copy()
+        want[..., 2] *= 3
+        want[..., 3] *= -1
+        got = q_to_float(S_._components_to_quat(*S_._quat_to_components(spm)))
+        add({"op": "split", "fn": "solver.components.sparse.after-update", "A": ilist(want),
+             "C": ilist(got) if got.shape == want.shape and np.array_equal(np.rint(got), got) else []})
+        dq = q_from_float(c)
+        S_._quat_to_components(dq)
+        dq *= 2.0                                        # dense array updated in place
+        got = q_to_float(S_._components_to_quat(*S_._quat_to_components(dq)))
+        add({"op": "split", "fn": "solver.components.dense.after-update", "A": ilist(c * 2), "C": ilist(got) if got.shape == c.shape else []})
     return ev
 
 
